@@ -902,9 +902,10 @@ class Interp:
     @staticmethod
     def _reserved_param(fv: FuncV, name: str, index: int) -> bool:
         """Parameter names that caller keywords are assumed never to use (stated precondition of every contract
-        with symbolic **kwargs): the receiver (`self`/`cls` in first position) and class-private names, which the
-        compiler mangles to `_Class__name`."""
-        if index == 0 and name in ("self", "cls"):
+        with symbolic **kwargs): the receiver `self` in first position and class-private names, which the
+        compiler mangles to `_Class__name`.  (`cls` is not exempt: a classmethod that forwards caller keywords must take
+        its class positional-only.)"""
+        if index == 0 and name == "self":
             return True
         return name.startswith("__") and not name.endswith("__") and fv.cls is not None
 
